@@ -1,2 +1,249 @@
+"""Kani side: weave the harness module (and, where enabled, contract attributes) into a scratch copy of the real
+crate, run `cargo kani`, classify the outcome, and replay counterexamples natively (cargo kani playback).
+
+step = {'kind': 'kani', 'unit': <name of contracts/kani/<unit>.py>, 'set': <property id>, 'features': None|'none'|'serde'}
+The unit module provides  build(repo, features) -> (rust_text, [harness meta]) ; meta keys:
+  name, tags [property ids], expect 'pass'|'panic', target (text), complete (bool), bound (text, when not complete),
+  unwind (int, optional)
+"""
+import importlib
+import os
+import re
+import shutil
+import subprocess
+import sys
+import tempfile
+import time
+
+HERE = os.path.dirname(os.path.abspath(__file__))
+ROOT = os.path.dirname(HERE)
+sys.path.insert(0, os.path.join(ROOT, 'contracts', 'kani'))
+
+KANI_FLAGS = ['-Z', 'function-contracts', '-Z', 'stubbing', '--output-format=terse']
+
+
+def feature_args(features):
+    if features == 'none':
+        return ['--no-default-features']
+    if features == 'serde':
+        return ['--features', 'serde,serde_repr']
+    return []
+
+
+def prepare(repo, unit, features):
+    tmp = tempfile.mkdtemp(prefix='verif_kani_')
+    for f in ('Cargo.toml', 'Cargo.lock'):
+        shutil.copy(os.path.join(repo, f), os.path.join(tmp, f))
+    shutil.copytree(os.path.join(repo, 'src'), os.path.join(tmp, 'src'))
+    os.makedirs(os.path.join(tmp, '.cargo'))
+    open(os.path.join(tmp, '.cargo', 'config.toml'), 'w').write('[net]\noffline = true\n')
+    mod = importlib.import_module(unit)
+    importlib.reload(mod)
+    text, metas = mod.build(repo, features)
+    weave = getattr(mod, 'weave', None)
+    if weave:
+        weave(tmp, features)
+    open(os.path.join(tmp, 'src', 'verif_kani.rs'), 'w').write(text)
+    lib = os.path.join(tmp, 'src', 'lib.rs')
+    s = open(lib).read()
+    # additive only: the harness module is appended; nothing of the crate is rewritten
+    s += '\n#[cfg(kani)]\nmod verif_kani;\n'
+    if getattr(mod, 'CRATE_ATTRS', None):
+        s = mod.CRATE_ATTRS + '\n' + s
+    open(lib, 'w').write(s)
+    return tmp, metas
+
+
+def parse_output(out):
+    """returns {harness: {'result': 'SUCCESSFUL'|'FAILED'|..., 'failed': [(desc, file, line, fn)], 'covers': (sat, total, unreachable), 'time': s, 'note': str}}"""
+    res = {}
+    cur_by_thread = {}
+    cur = None
+    lines = out.split('\n')
+    i = 0
+    block_h = None
+    while i < len(lines):
+        ln = lines[i]
+        m = re.match(r'(?:Thread (\d+): )?Checking harness (\S+?)\.\.\.', ln)
+        if m:
+            th = m.group(1) or '0'
+            cur_by_thread[th] = m.group(2)
+            res.setdefault(m.group(2), {'result': None, 'failed': [], 'covers': None, 'time': None, 'note': ''})
+            if m.group(1) is None:
+                block_h = m.group(2)
+            i += 1
+            continue
+        m = re.match(r'Thread (\d+): *$', ln)
+        if m:
+            block_h = cur_by_thread.get(m.group(1))
+            i += 1
+            continue
+        if block_h is not None:
+            r = res[block_h]
+            m = re.match(r'Failed Checks: (.*)$', ln)
+            if m:
+                desc = m.group(1).strip()
+                loc = lines[i + 1].strip() if i + 1 < len(lines) else ''
+                lm = re.match(r'File: "([^"]*)", line (\d+), in (\S+)', loc)
+                r['failed'].append((desc, lm.group(1) if lm else '', int(lm.group(2)) if lm else 0, lm.group(3) if lm else ''))
+            m = re.match(r' \*\* (\d+) of (\d+) cover properties satisfied(?: \((\d+) unreachable\))?', ln)
+            if m:
+                r['covers'] = (int(m.group(1)), int(m.group(2)), int(m.group(3) or 0))
+            m = re.match(r'VERIFICATION:- (\S+)(.*)$', ln)
+            if m:
+                r['result'] = m.group(1)
+                r['note'] = m.group(2).strip()
+            m = re.match(r'Verification Time: ([0-9.]+)s', ln)
+            if m:
+                r['time'] = float(m.group(1))
+            if 'CBMC failed' in ln or 'CBMC timed out' in ln or 'out of memory' in ln.lower():
+                r['result'] = 'TOOL'
+                r['note'] = ln.strip()
+        i += 1
+    return res
+
+
+def playback(tmp, hname, fargs, timeout=600):
+    """re-run one failing harness with concrete playback written in place, then execute the generated unit test
+    natively against the real code.  returns dict or None"""
+    short = hname.split('::')[-1]
+    try:
+        p = subprocess.run(['cargo', 'kani'] + KANI_FLAGS + ['-Z', 'concrete-playback', '--concrete-playback=inplace', '--harness', hname, '--exact'] + fargs,
+                           cwd=tmp, stdout=subprocess.PIPE, stderr=subprocess.STDOUT, universal_newlines=True, timeout=timeout,
+                           env=dict(os.environ, CARGO_NET_OFFLINE='true'))
+    except subprocess.TimeoutExpired:
+        return None
+    m = re.search(r'- (kani_concrete_playback_%s_\d+)' % re.escape(short), p.stdout)
+    if not m:
+        return None
+    test = m.group(1)
+    src = open(os.path.join(tmp, 'src', 'verif_kani.rs')).read()
+    k = src.find('fn ' + test)
+    vals = []
+    if k >= 0:
+        body = src[k:src.find('kani::concrete_playback_run', k)]
+        for cm, by in re.findall(r'//\s*(.*)\n\s*vec!\[([^\]]*)\]', body):
+            vals.append({'decoded': cm.strip(), 'bytes': [int(x) for x in by.split(',') if x.strip()]})
+    try:
+        q = subprocess.run(['cargo', 'kani', 'playback', '-Z', 'concrete-playback'] + fargs + ['--', test],
+                           cwd=tmp, stdout=subprocess.PIPE, stderr=subprocess.STDOUT, universal_newlines=True, timeout=timeout,
+                           env=dict(os.environ, CARGO_NET_OFFLINE='true', RUST_BACKTRACE='0'))
+        pm = re.search(r"panicked at ([^\n]*)\n([^\n]*)", q.stdout)
+        failed = 'test result: FAILED' in q.stdout
+        ran = 'running 1 test' in q.stdout
+        rr = {'executed_natively': ran, 'fails_on_real_code': failed, 'panic': (pm.group(1) + ' ' + pm.group(2)) if pm else None}
+    except subprocess.TimeoutExpired:
+        rr = {'executed_natively': False, 'fails_on_real_code': None, 'panic': None}
+    return {'values_in_order_of_kani_any_calls': vals, 'native_replay': rr, 'test': test}
+
+
 def run(step, repo, tier='quick', seed=0):
-    return {'status': 'tool', 'failures': [], 'tool_errors': ['kani runner not built yet'], 'wall_s': 0}
+    t0 = time.time()
+    res = {'status': 'tool', 'failures': [], 'tool_errors': [], 'wall_s': 0, 'harnesses': 0, 'harness_list': [],
+           'obligations': 0, 'discharged': 0, 'trusted': [], 'bounded': [], 'samples': [], 'cmd': '', 'verification_time_s': 0.0}
+    tmp = None
+    try:
+        try:
+            tmp, metas = prepare(repo, step['unit'], step.get('features'))
+        except Exception as e:   # generator problems are tool errors, never verdicts
+            res['tool_errors'].append('harness generation failed: %s: %s' % (type(e).__name__, e))
+            return res
+        pid = step['set']
+        sel = [m for m in metas if pid in m['tags'] and (tier == 'thorough' or not m.get('thorough_only'))]
+        if not sel:
+            res['tool_errors'].append('no harness selected for %s in unit %s' % (pid, step['unit']))
+            return res
+        fargs = feature_args(step.get('features'))
+        cmd = ['cargo', 'kani'] + KANI_FLAGS + ['-j', str(step.get('jobs', 16))] + fargs
+        for m in sel:
+            cmd += ['--harness', 'verif_kani::' + m['name']]
+        cmd += ['--exact']
+        res['cmd'] = 'cargo kani %s -j 16 %s --exact --harness <%d harnesses of unit %s tagged %s>' % (' '.join(KANI_FLAGS), ' '.join(fargs), len(sel), step['unit'], pid)
+        try:
+            p = subprocess.run(cmd, cwd=tmp, stdout=subprocess.PIPE, stderr=subprocess.STDOUT, universal_newlines=True,
+                               timeout=step.get('timeout', 2400), env=dict(os.environ, CARGO_NET_OFFLINE='true'))
+        except subprocess.TimeoutExpired:
+            res['tool_errors'].append('cargo kani timed out after %d s' % step.get('timeout', 2400))
+            return res
+        out = p.stdout
+        if os.environ.get('VERIF_DEBUG'):
+            open('/tmp/verif_kani_last_%s_%s.log' % (step['unit'], pid), 'w').write(out)
+        parsed = parse_output(out)
+        if not parsed:
+            errs = [l for l in out.split('\n') if l.startswith('error')]
+            res['tool_errors'].append('kani produced no harness results (compile error?): ' + ' | '.join(errs[:5]) + ' ... ' + out[-1500:])
+            return res
+        res['harnesses'] = len(sel)
+        for m in sel:
+            full = 'verif_kani::' + m['name']
+            r = parsed.get(full)
+            if r is None or r['result'] is None:
+                res['tool_errors'].append('no result for harness ' + m['name'])
+                continue
+            res['verification_time_s'] += r['time'] or 0
+            ent = {'name': m['name'], 'target': m.get('target'), 'time_s': r['time'], 'complete': m.get('complete', True), 'result': r['result'],
+                   'checks': m.get('checks')}
+            res['harness_list'].append(ent)
+            res['obligations'] += 1
+            if not m.get('complete', True):
+                res['bounded'].append('%s: %s' % (m['name'], m.get('bound', 'bounded')))
+            unwind_fail = [f for f in r['failed'] if 'unwinding assertion' in f[0]]
+            if r['result'] == 'TOOL' or unwind_fail:
+                res['tool_errors'].append('harness %s: %s %s' % (m['name'], r['note'], unwind_fail[:1]))
+                continue
+            ok = False
+            if m.get('expect', 'pass') == 'pass':
+                ok = r['result'] == 'SUCCESSFUL' and not r['failed'] and r['covers'] is not None and r['covers'][0] == r['covers'][1] and r['covers'][1] > 0
+                if r['result'] == 'SUCCESSFUL' and not ok:
+                    res['tool_errors'].append('harness %s is vacuous: cover properties %s' % (m['name'], r['covers']))
+                    continue
+            else:   # the call must panic for every input: the return point is unreachable
+                ok = r['result'] == 'SUCCESSFUL' and 'panics as expected' in r['note'] and r['covers'] is not None and r['covers'][0] == 0
+            if ok:
+                if m.get('complete', True):
+                    res['discharged'] += 1
+                else:
+                    res['obligations'] -= 1   # bounded stand-ins are reported separately, never counted as proved
+                continue
+            # failure: attribute by the [Cxx] tags of the failed checks; untagged failed checks (panics inside the real
+            # code, overflow, ...) count for every property the harness serves
+            descs = r['failed'] or [('%s %s' % (r['result'], r['note']), '', 0, '')]
+            tags = set()
+            for d in descs:
+                t = set(re.findall(r'\[(C\d+)\]', d[0]))
+                tags |= t if t else set(m['tags']) | (set(['C18']) if m.get('valid_input', True) else set())
+            if m.get('expect') == 'panic' and not r['failed']:
+                tags = set(m['tags'])
+            f = {'name': '%s :: harness %s (%s) :: %s' % (step['unit'], m['name'], m.get('target', ''), '; '.join(d[0] for d in descs)[:400]),
+                 'tags': sorted(tags), 'message': '; '.join(d[0] for d in descs),
+                 'rendered': 'Kani harness %s: VERIFICATION %s %s\n' % (m['name'], r['result'], r['note']) + '\n'.join('Failed check: %s (%s:%d in %s)' % d for d in descs)}
+            pbh = m['name'] if m.get('expect', 'pass') == 'pass' else m.get('playback_harness')
+            if pid in tags and pbh and not step.get('no_playback'):
+                pb = playback(tmp, 'verif_kani::' + pbh, fargs)
+                if pb:
+                    f['counterexample'] = {'harness': m['name'], 'inputs': pb['values_in_order_of_kani_any_calls'], 'input_schema': m.get('inputs')}
+                    f['replay_result'] = pb['native_replay']
+            res['failures'].append(f)
+        for m in sel[:3]:
+            res['samples'].append({'harness': m['name'], 'target': m.get('target'), 'obligation': m.get('checks')})
+        mod = sys.modules.get(step['unit'])
+        res['trusted'] = list(getattr(mod, 'TRUSTED', []))
+        if res['tool_errors']:
+            res['status'] = 'tool'
+        elif res['failures']:
+            res['status'] = 'fail'
+        else:
+            res['status'] = 'ok'
+        return res
+    finally:
+        res['wall_s'] = round(time.time() - t0, 2)
+        if tmp and not os.environ.get('VERIF_KEEP_TMP'):
+            shutil.rmtree(tmp, ignore_errors=True)
+
+
+if __name__ == '__main__':
+    import json
+    step = {'kind': 'kani', 'unit': sys.argv[1], 'set': sys.argv[2], 'features': sys.argv[3] if len(sys.argv) > 3 and sys.argv[3] != '-' else None}
+    r = run(step, sys.argv[4] if len(sys.argv) > 4 else '/repo', tier=os.environ.get('VERIF_TIER', 'quick'))
+    r['harness_list'] = r['harness_list'][:5]
+    print(json.dumps(r, indent=1))
